@@ -442,9 +442,7 @@ def _tables(recipe, obj):
             _cds_calls(sub, d, L, "")
             for name, fn in sub.items():
                 t["cds." + name] = (lambda fn: lambda o, c: fn(o.cds, c))(fn)
-            for name in ("num_chunk_relative_codons", "chunk_relative_codon_locations", "extract_sequence",
-                         "has_valid_stop", "num_codons", "chromosome_codon_locations", "chunk_relative_frames",
-                         "has_in_frame_stop", "to_dict", "chromosome_location"):
+            for name in CDS_CHILD_NAMES:
                 t["cds." + name] = (lambda name: lambda o, c: _get(o.cds, name))(name)
         if k in ("gene", "featcoll"):
             t["query_by_guids:first"] = lambda o, c: o.query_by_guids([next(iter(o)).guid])
@@ -456,7 +454,7 @@ def _tables(recipe, obj):
                 t["child0." + name] = (lambda name: lambda o, c: _get(next(iter(o)), name))(name)
             t["child0.__hash__"] = lambda o, c: hash(next(iter(o))) == hash(next(iter(c.recipe.build())))
             if k == "gene":
-                for name in ("num_chunk_relative_codons", "extract_sequence", "has_valid_stop"):
+                for name in CDS_CHILD_NAMES:
                     t["cds0." + name] = (lambda name: lambda o, c: _get(o.get_primary_cds(), name))(name)
         if k == "annot":
             a, b = d["window"]
@@ -479,10 +477,21 @@ def _tables(recipe, obj):
             t["to_dict:parent"] = lambda o, c: o.to_dict(export_parent=True)
             t["__iter__"] = lambda o, c: iter(o)
             t["to_genbank"] = _to_genbank
+            for name in CDS_CHILD_NAMES:
+                t["cds0." + name] = (lambda name: lambda o, c: _get(
+                    o.genes[0].get_primary_cds() if o.genes else None, name))(name)
             for name in ("to_gff", "export_qualifiers", "to_dict", "qualifiers"):
                 t["child0." + name] = (lambda name: lambda o, c: _get(next(iter(o)), name))(name)
             t["child0.__hash__"] = lambda o, c: hash(next(iter(o))) == hash(next(iter(c.recipe.build())))
     return t
+
+
+# accessors of the CDS of a transcript / of the primary CDS of a gene / of the first gene of a collection
+FLAG_SETTERS = ("num_chunk_relative_codons", "chunk_relative_codon_locations")      # set `_chunk_relative_codon_locations_cached`
+CHROMOSOME_LEVEL = ("num_codons", "chromosome_codon_locations", "translate", "extract_sequence", "has_valid_stop",
+                    "to_dict", "guid", "has_in_frame_stop", "chunk_relative_frames", "frames", "chromosome_location",
+                    "has_canonical_start_codon", "scan_codons", "__hash__")
+CDS_CHILD_NAMES = FLAG_SETTERS + CHROMOSOME_LEVEL
 
 
 def _cds_calls(t, d, L, prefix):
@@ -511,7 +520,7 @@ def _get(o, name):
     if o is None:
         return None
     if name == "__hash__":
-        return hash(o)
+        return hash(o) == hash(o)      # raw hashes are salted per process; that it can be hashed at all is the answer
     v = getattr(o, name)
     st = inspect.getattr_static(type(o), name, None)
     if type(st).__name__ in ("function", "_MethodRope"):
@@ -701,10 +710,15 @@ def is_filler(tok):
     return tok in ("T:s", "T:e", "W", "X", "S") or (tok[0] == "P" and tok[1:].isdigit())
 
 
+def make_recipe(kindmode, seed):
+    """`<kind>.<mode>[.<e|s>[.<lo|hi|both>]]` + object seed -> Recipe"""
+    kind, mode, spelling, cut = (kindmode.split(".") + [None, None])[:4]
+    return G.make(kind, random.Random(seed), mode, spelling, cut)
+
+
 def reference_answers(kindmode, seed, tokens):
     """{call token: canonical answer of a freshly built twin asked this ONE question under cold caches}"""
-    kind, mode, spelling = (kindmode.split(".") + [None])[:3]
-    recipe = G.make(kind, random.Random(seed), mode, spelling)
+    recipe = make_recipe(kindmode, seed)
     cold()
     table = call_table(recipe, recipe.build())
     ref = {}
@@ -807,8 +821,7 @@ def serve():
 
 
 def run_history(kindmode, seed, tokens, ref, snap_every=True):
-    kind, mode, spelling = (kindmode.split(".") + [None])[:3]
-    recipe = G.make(kind, random.Random(seed), mode, spelling)
+    recipe = make_recipe(kindmode, seed)
     rng = random.Random(seed * 7919 + 13)
     if "__unknown__" in ref:
         return f"err! UnknownCall:{ref['__unknown__']}"
@@ -973,10 +986,13 @@ def op_pstrand(t):
 
 
 def build_cds_literal(t, i):
+    """`<strand> <k> (<start> <end>){k} <genome> [<chunk start> <chunk end>]`: CDS with start frame 0, on the chromosome
+    or (with a window) on a sequence chunk built like io.parser.seq_chunk_to_parent"""
     st = G.STRANDS[t[i]]
     k = int(t[i + 1])
     blocks = [(int(t[i + 2 + 2 * j]), int(t[i + 3 + 2 * j])) for j in range(k)]
     genome = t[i + 2 + 2 * k]
+    window = (int(t[i + 3 + 2 * k]), int(t[i + 4 + 2 * k])) if len(t) > i + 4 + 2 * k else None
     order = blocks if st != Strand.MINUS else blocks[::-1]
     frames, f = [], 0
     for s, e in order:
@@ -984,15 +1000,24 @@ def build_cds_literal(t, i):
         f = (f + e - s) % 3
     if st == Strand.MINUS:
         frames = frames[::-1]
-    parent = Parent(id="chr", sequence_type=SequenceType.CHROMOSOME,
-                    sequence=Sequence(genome, Alphabet.NT_EXTENDED_GAPPED, type=SequenceType.CHROMOSOME))
+    if window is None:
+        parent = Parent(id="chr", sequence_type=SequenceType.CHROMOSOME,
+                        sequence=Sequence(genome, Alphabet.NT_EXTENDED_GAPPED, type=SequenceType.CHROMOSOME))
+    else:
+        cs, ce = window
+        cid = f"chr:{cs}-{ce}"
+        parent = Parent(id=cid, sequence=Sequence(
+            genome[cs:ce], Alphabet.NT_EXTENDED_GAPPED, id=cid, type=SequenceType.SEQUENCE_CHUNK,
+            parent=Parent(location=SingleInterval(cs, ce, Strand.PLUS,
+                                                  parent=Parent(id="chr", sequence_type=SequenceType.CHROMOSOME)))))
     return CDSInterval([b[0] for b in blocks], [b[1] for b in blocks], st, frames, parent_or_seq_chunk_parent=parent)
 
 
 def op_cdshist(t):
-    cds = build_cds_literal(t, 3)
+    cold()
+    cds = build_cds_literal(t, 5)
     out = []
-    for ch in t[2]:
+    for ch in t[4]:
         try:
             if ch == "c":
                 out.append(f"n:{len(cds.chunk_relative_codon_locations)}")
@@ -1003,6 +1028,8 @@ def op_cdshist(t):
                 out.append(f"{type(s).__name__}:{s}")
             elif ch == "v":
                 out.append("true" if cds.has_valid_stop else "false")
+            elif ch == "N":
+                out.append(f"n:{cds.num_codons}")
         except Exception as e:  # noqa
             tok = exc_token(e)
             out.append("err!" if tok.startswith("err!") else "err:" + tok.split()[1])
